@@ -140,6 +140,7 @@ class Interp:
         self.pure = 0
         self.used_contracts = []      # (target, assumed?) for evidence
         self.inlined = []
+        self._auto_depth = 0
         self.assumed_used = []
         self.old_env = None
         self.depth = 0
@@ -2101,6 +2102,19 @@ class Interp:
         cands = self.registry.get(target)
         if cands:
             return self.apply_contract(cands, mod, cname, fn, args, kwargs, ftxt)
+        # A callee with neither a contract nor an inline directive (a helper introduced after the contracts were
+        # written): its REAL body is executed symbolically in place (recorded as auto-inlined in the evidence) instead of
+        # leaving the caller undecided.  Only callees of the file of the function under contract, to a small depth.
+        if c is not None and c.defs.get('auto_inline', True) and mod.relpath == c.target.split('::')[0] and self._auto_depth < 2:
+            self.inlined.append((target + ' [auto-inlined: no contract]', extract.source_hash(mod, fn)))
+            decos = [d.id for d in fn.decorator_list if isinstance(d, ast.Name)]
+            if 'staticmethod' in decos and cname and args and isinstance(args[0], SObj):
+                args = args[1:]
+            self._auto_depth += 1
+            try:
+                return self.run_function(mod, cname, fn, args, kwargs)
+            finally:
+                self._auto_depth -= 1
         raise Unsupported('call to %s: no contract and not inlined' % target)
 
     # -- modular application of a callee contract --------------------------------------------
